@@ -971,14 +971,16 @@ func (o *oracle) step(si int, st Step, rc int, log []event, pre, post snapshot, 
 			p, had := pre.svcs[id]
 			if e.InSync && !e.Deleted && !(had && p.InSync && !p.Deleted) && !holdsSvc(postCat, id, e.Service) {
 				return fmt.Sprintf("local-op-marks-insync:svc:%d", id), sig("local-op-marks-insync", "entry", "svc",
-					"over_deleted", had && p.Deleted, "over_unsynced", had && !p.InSync)
+					"over_deleted", had && p.Deleted, "over_unsynced", had && !p.InSync,
+					"same_definition", had && p.Service != nil && e.Service != nil && e.Service.IsSame(p.Service))
 			}
 		}
 		for id, e := range post.chks {
 			p, had := pre.chks[id]
 			if e.InSync && !e.Deleted && !(had && p.InSync && !p.Deleted) && !holdsChk(postCat, id, e.Check) {
 				return fmt.Sprintf("local-op-marks-insync:chk:%d", id), sig("local-op-marks-insync", "entry", "chk",
-					"over_deleted", had && p.Deleted, "over_unsynced", had && !p.InSync)
+					"over_deleted", had && p.Deleted, "over_unsynced", had && !p.InSync,
+					"same_definition", had && p.Check != nil && e.Check != nil && e.Check.IsSame(p.Check))
 			}
 		}
 		return "", nil
@@ -1115,18 +1117,23 @@ func (o *oracle) step(si int, st Step, rc int, log []event, pre, post snapshot, 
 				detail = fmt.Sprintf("chk %d not held", id)
 			}
 		}
-		stale := false
+		stale, rebound := false, true
 		for _, id := range sortedKeys(postCat.chks) {
 			if _, ok := post.chks[id]; !ok && id != consulID {
 				detail = fmt.Sprintf("foreign chk %d left", id)
 				stale = true
+				// was it a locally removed check that the catalog held under another service?
+				p, had := pre.chks[id]
+				r := preCat.chks[id]
+				rebound = rebound && had && p.Deleted && p.Check != nil && r != nil && p.Check.ServiceID != r.ServiceID
 			}
 		}
 		if postCat.node == nil || postCat.node.Meta["k"] != "1" {
 			detail = "node info not pushed"
 		}
 		if detail != "" {
-			return "not-converged:" + detail, sig("not-converged", "stale_check_only", stale && strings.HasPrefix(detail, "foreign chk"))
+			return "not-converged:" + detail, sig("not-converged", "stale_check_only", stale && strings.HasPrefix(detail, "foreign chk"),
+				"stale_checks_bound_elsewhere", stale && rebound)
 		}
 	}
 	return "", nil
@@ -1436,8 +1443,17 @@ func shrink(h History, faults []int, kind string) (History, []int, result) {
 		for i := len(h.Steps) - 1; i >= 0; i-- {
 			h2 := h
 			h2.Steps = append(append([]Step{}, h.Steps[:i]...), h.Steps[i+1:]...)
-			// faults are positional: try both keeping them and dropping them
-			for _, f2 := range [][]int{faults, nil} {
+			// faults are positional: keep them, move the last one earlier (the removed step may
+			// have made calls), or drop them
+			cands := [][]int{faults}
+			if n := len(faults); n > 0 {
+				for k := 1; k <= n-1 && k <= 16; k++ {
+					f := append([]int{}, faults[:n-1-k]...)
+					cands = append(cands, append(f, faults[n-1]))
+				}
+			}
+			cands = append(cands, nil)
+			for _, f2 := range cands {
 				r := run(h2, f2)
 				if sameFailure(r) {
 					h, faults, best, changed = h2, f2, r, true
@@ -1483,13 +1499,14 @@ func main() {
 	enc := json.NewEncoder(bw)
 
 	g := &gen{r: rand.New(rand.NewSource(*seed))}
-	nHist, nMal, coqFaultStride := 150, 60, 3
+	nHist, nMal, coqFaultStride := 150, 60, 4
 	pairs := false
 	if *tier == "thorough" {
 		nHist, nMal, coqFaultStride = 600, 250, 3
 		pairs = true
 	}
 	id := 0
+	shrunkFor := map[string]int{}
 	emit := func(kind string, h History, faults []int, toCoq bool) result {
 		r := run(h, faults)
 		c := Case{ID: id, Kind: kind, Hist: r.hist, Faults: faults, Obs: r.obs, Calls: r.calls, Oracle: r.oracle, Fails: r.fails, ToCoq: toCoq}
@@ -1497,8 +1514,18 @@ func main() {
 			c.Faults = []int{}
 		}
 		for i, f := range c.Fails {
-			// shrink, and carry the shrunk history (and ITS signature) with the objection
+			// shrink, and carry the shrunk history (and ITS signature) with the objection; once per
+			// distinct signature (the check reports one replay per signature)
 			k := f.Sig["kind"].(string)
+			kb, _ := json.Marshal(f.Sig)
+			key := string(kb)
+			if k == "panic" {
+				key = fmt.Sprint(k, f.Sig["op"], f.Sig["over_placeholder"])
+			}
+			if shrunkFor[key] >= 2 {
+				continue
+			}
+			shrunkFor[key]++
 			_, fs, rs := shrink(h, faults, k)
 			if sf := rs.has(k); sf != nil {
 				sig := sf.Sig
